@@ -36,6 +36,7 @@ func c10FieldKinds() []fieldKind {
 		{"func", same(space.Fn("()")), same(space.Fn("()")), true},
 		{"chan", same(space.Ch("", tInt)), same(space.Ch("", tInt)), true},
 		{"array", same(space.A(2, tInt)), same(space.A(2, tInt)), true},
+		{"ustruct-with-any", same(space.St(f("E", space.Any()), f("X", tInt))), same(space.St(f("E", space.Any()), f("X", tInt))), true},
 		{"ustruct-noncomparable", same(space.St(f("L", space.S(tInt)))), same(space.St(f("L", space.S(tInt)))), false},
 	}
 }
